@@ -72,6 +72,11 @@ PLANS = {
                 "while held / not destroyed with the last handle / twice), deref identity, references_count() == live handles at the quiescent end, all POOL_SIZE slots allocatable afterwards; "
                 "distinct = distinct (schedule, scripts)",
                 [ser(12), free(8), ser(5, flavor="checked", shards=8)], [ser(150), free(100), ser(60, flavor="checked"), dict(flavor="asan", lane="free", secs=60, crash_is_violation=True)], 2000, 20000),
+    "C07": plan("one evaluation = one execution on a random channel kind (11 kinds), MAX_STREAMS in {1,2,4}, 1..4 streams of which all (cancel_all_streams) or a random non-empty subset "
+                "(gracefully_end_stream, unbounded timeout, driven on a paused-time runtime) are targeted by a requester thread at a scheduler-chosen moment; targeted streams are driven by a "
+                "minimal executor (park on Pending), the others poll; 0-2 producers send before and after; oracles: no targeted stream parked-and-not-ended at exact quiescence, no Pending from a "
+                "poll started after the request returned, request completes (stall verdict), untargeted streams receive every accepted event, all ids reusable afterwards; distinct = (schedule, config)",
+                [ser(15), free(8), ser(6, flavor="checked", shards=8)], [ser(200), free(120), ser(80, flavor="checked")], 2000, 20000),
 }
 
 LEVEL_NOTE = ("trusted base: the harness (conductor/chaos scheduler, recorder, checkers), the placement of the hook sites, x86-64/TSO for the free-running lane, "
@@ -111,4 +116,7 @@ META = {
     "C14": meta("conductor+chaos+asan", "runtime monitoring: instrumented payload (drop tracker) + harness shadow of live handles, checked at quiescent points; controlled scheduling around the clone/drop sites; AddressSanitizer lane in thorough",
                 "Randomised exploration of handle scripts on 2-3 threads with the decisive placements (two last handles dropped at once, clone racing a final drop) forced by the scheduler.",
                 "DESIGN.md section 2, C14"),
+    "C07": meta("conductor+chaos", "runtime monitoring: controlled scheduling of the cancel/end request against the stream's poll steps; exact-quiescence oracle (parked and not ended), stall verdict, delivery oracle for untargeted streams",
+                "Randomised exploration of the placements of a cancel/end request relative to a stream's poll steps, with parked consumers decided at exact quiescence.",
+                "DESIGN.md section 2, C07"),
 }
